@@ -99,6 +99,18 @@ LastIndexReadable(o) ==
     IF Len(o.rec.entries) = 0 THEN o.rec.last_log_index <= o.rec.snapshot_index
     ELSE o.rec.last_log_index = o.rec.entries[Len(o.rec.entries)].index
 
+\* a store that came back stays a store: used as Raft uses it after a restart (appends behind the last index it
+\* reported, each acknowledged), killed at that quiescent point and opened again, it returns what it returned at the first
+\* opening followed by exactly those appends - in the running process and after the second opening.  (The history
+\* "operations, kill, restart, appends, kill" is an operation history with a kill like any other.)
+UsableAfterRecovery(o) ==
+    o.rec.use.ran =>
+        /\ o.rec.use.accepted /\ o.rec.use.booted2
+        /\ ContigRec(o.rec.use.live) /\ ContigRec(o.rec.use.reopened)
+        /\ LET exp == Normal(o.rec.entries) \cup Range(o.rec.use.appended) IN
+               /\ Normal(o.rec.use.live) = exp
+               /\ Normal(o.rec.use.reopened) = exp
+
 Obs4 == ndJsonDeserialize(IOEnv.OBS)
 
 Chk04 == (Mode = "chk") =>
@@ -111,7 +123,8 @@ Chk04 == (Mode = "chk") =>
             /\ OnlySubmitted(o) \/ PrintT(<<"REQ-FAILED", "OnlySubmitted", i>>)
             /\ MetaWritten(o) \/ PrintT(<<"REQ-FAILED", "MetaWritten", i>>)
             /\ AppliedReproducible(o) \/ PrintT(<<"REQ-FAILED", "AppliedReproducible", i>>)
-            /\ LastIndexReadable(o) \/ PrintT(<<"REQ-FAILED", "LastIndexReadable", i>>))
+            /\ LastIndexReadable(o) \/ PrintT(<<"REQ-FAILED", "LastIndexReadable", i>>)
+            /\ UsableAfterRecovery(o) \/ PrintT(<<"REQ-FAILED", "UsableAfterRecovery", i>>))
 
 CExport == Done => PrintT(<<"REPLAY", ToJson([steps |-> hist])>>)
 =============================================================================
